@@ -9,6 +9,9 @@ open XotModel.Props
 #print axioms C16_write
 #print axioms C16_write_default
 #print axioms C16_to_string
+#print axioms C16_xml_string_body
+#print axioms C16_xml_string
+#print axioms C16_xml_string_conv
 #print axioms C16_events_start
 #print axioms C16_events_element
 #print axioms C16_events_inherited
